@@ -155,6 +155,10 @@ def elem_term(lst_elem: str, v):
     raise OutOfSubset(f"cannot store {type(v).__name__} in list[{lst_elem}]")
 
 
+PairOI = z3.Datatype("PairOI")
+PairOI.declare("mk", ("o", Obj), ("i", z3.IntSort()))
+PairOI = PairOI.create()
+ELEM_SORT["pair"] = PairOI            # dict keys of the form (object, int)
 DK_HAS = z3.Function("dictobj.has", Obj, z3.IntSort(), z3.BoolSort())
 DK_VAL = z3.Function("dictobj.val", Obj, z3.IntSort(), Obj)
 
@@ -282,7 +286,7 @@ class Executor:
             return ListV(z3.Const(name, z3.ArraySort(z3.IntSort(), ELEM_SORT[ek])), z3.Int(name + "_len"), ek)
         if ty.startswith("dict["):
             kt, vt = [x.strip() for x in _split_top(ty[5:-1])]
-            if kt not in ("obj", "int") or vt not in ("int", "obj", "bool", "list[int]", "list[obj]"):
+            if kt not in ("obj", "int", "pair") or vt not in ("int", "obj", "bool", "list[int]", "list[obj]"):
                 raise OutOfSubset(f"type {ty}")
             return self.mk_dict(name, kt, vt)
         if ty.startswith("opt[") or ty.startswith("obj"):
@@ -370,6 +374,10 @@ class Executor:
     def key_term(self, d: DictV, k):
         if d.key == "int":
             return self.as_int(k)
+        if d.key == "pair":
+            if isinstance(k, TupleV) and len(k.items) == 2 and isinstance(k.items[0], ObjV):
+                return PairOI.mk(k.items[0].t, self.as_int(k.items[1]))
+            raise OutOfSubset("dict key is not an (object, int) pair")
         if isinstance(k, ObjV):
             return k.t
         raise OutOfSubset(f"dict key of kind {type(k).__name__}")
@@ -1363,11 +1371,13 @@ class Executor:
                 results.append((sx, "fall", None))
             else:
                 results.append((sx, sig, val))
-        # 4. exit
+        # 4. exit (a `while True:` loop is left only through return / break / raise)
         e = head.clone()
-        e.pc.append(z3.Not(cond(e)))
-        e.path += "x"
-        results.append((e, "fall", None))
+        ce = z3.simplify(cond(e))
+        if not z3.is_true(ce):
+            e.pc.append(z3.Not(ce))
+            e.path += "x"
+            results.append((e, "fall", None))
         return results
 
     # ---- list comprehensions ---------------------------------------------------------------------------------
